@@ -293,11 +293,24 @@ theorem failed_write_no_trace (hiv : A.initVersion ≤ 1) {e : Ent A} {L : Log A
       · exact hs
     simpa [hl, this] using h2
 
-/-- **history_lists_all** (for histories without `drop_aggregate`, see below).  After every
-history, `command_history` through any store object – with or without history cache, the
-cache filled at any earlier point of the history – lists exactly the stored commands from
-version 1 on, in order, each with its version, actor, details and result. -/
-theorem history_lists_all_partial (hiv : A.initVersion ≤ 1) (ops : List (Op A)) (i : Nat) (cached : Bool) :
+/-- **history_lists_all.**  After every history – creation, accepted / rejected / no-op / vetoed
+commands, failed writes, snapshots, store objects re-created, history queries at any earlier
+point, *and* `drop_aggregate` followed by re-creation of the same handle (delete a CA, create
+a CA of that name) – `command_history` through any store object, with or without history cache,
+lists exactly the commands stored for the *current* entity from version 1 on, in order, each
+with its version, actor, details and result.  (`DropSafe`: a drop happens while no other store
+object remembers the entity – `drop_aggregate` can only clear the caches of the store object it
+is called on; see `history_needs_dropSafe`.) -/
+theorem history_lists_all (hiv : A.initVersion ≤ 1) (ops : List (HOp A))
+    (hs : DropSafe (Ent.empty : Ent A) ops) (i : Nat) (cached : Bool) :
+    (commandHistory (runH (Ent.empty : Ent A) ops) i cached {}).2.commands =
+      ((specRunH ([] : Log A) ops).drop 1).map Stored.toRecord := by
+  have hI : Inv (runH (Ent.empty : Ent A) ops) (specRunH [] ops) := runH_refines hiv inv_empty ops hs
+  rw [(commandHistory_spec hI i cached).1]
+  simp [recordsUpTo]
+
+/-- The same for histories without `drop_aggregate` (no side condition). -/
+theorem history_lists_all_no_drop (hiv : A.initVersion ≤ 1) (ops : List (Op A)) (i : Nat) (cached : Bool) :
     (commandHistory (run (Ent.empty : Ent A) ops) i cached {}).2.commands =
       ((specRun ([] : Log A) ops).drop 1).map Stored.toRecord := by
   have hI : Inv (run (Ent.empty : Ent A) ops) (specRun [] ops) := run_refines hiv inv_empty ops
@@ -334,25 +347,44 @@ example : ∀ e : Nat, Inv (twoWriters.ents e)
   intro e
   exact run_refines (A := Reg.regAgg 1) (by decide) inv_empty [.add 0 "init" "n0" false]
 
-/-
-The full statement – the same for histories that also contain `drop_aggregate` followed by a
-new `add` of the same handle (delete a CA, create a CA of that name) – is FALSE of the code
-when the store object was created with `use_history_cache` (krill's default):
-`drop_aggregate` (store.rs:517-525) removes the scope and the aggregate cache entry but not
-the history-cache entry, so `command_history` keeps returning the records of the deleted
-entity and never lists the commands of the new one whose versions it believes to have seen
-(finding F-C07-1; replayed on the implementation by the `aggstore` stream).
--/
+/-- Non-vacuity of `DropSafe` and the delete / re-create scenario itself: the history through
+the store object with history cache shows the new entity's command only. -/
+example :
+    let ops : List (HOp (Reg.regAgg 1)) :=
+      [.op (.add 0 "a" "n0" false), .op (.cmd 0 ⟨"old", .add 1⟩ false), .op (.hist 0 true),
+       .drop 0, .op (.add 0 "a" "n0" false), .op (.cmd 0 ⟨"new", .add 2⟩ false)]
+    DropSafe (Ent.empty : Ent (Reg.regAgg 1)) ops ∧
+    ((commandHistory (runH (Ent.empty : Ent (Reg.regAgg 1)) ops) 0 true {}).2.commands.map (·.actor))
+      = ["new"] := by
+  refine ⟨⟨trivial, trivial, trivial, ?_, trivial, trivial, trivial⟩, rfl⟩
+  intro j hj
+  constructor
+  · show alookup ([(0, ⟨1, ⟨0, "n0"⟩⟩)] : List (Nat × Ver (Reg.regAgg 1))) j = none
+    simp [alookup_cons, Ne.symm hj]
+  · show alookup ((0, _) :: ([] : List (Nat × List (Record (Reg.regAgg 1))))) j = none
+    simp [alookup_cons, Ne.symm hj]
 
-/-- Witness (negation of the full statement): after `drop_aggregate` and re-creation the
-cached history shows the deleted entity's command by `"old"` and misses the new entity's
-command by `"new"`, which an uncached store object lists. -/
+/-- Counter-model (what the pinned tree did before fix 04272ff6, finding F-C07-1, replayed on the
+implementation by `corpus/aggstore/history-after-drop.ops`): with a `drop_aggregate` that leaves
+the history-cache entry alone, the cached history after delete + re-create shows the deleted
+entity's command by `"old"` and misses the new entity's command by `"new"`, which an uncached
+store object lists. -/
 theorem history_stale_after_drop :
     let e1 := run (Ent.empty : Ent (Reg.regAgg 1))
       [.add 0 "a" "n0" false, .cmd 0 ⟨"old", .add 1⟩ false, .hist 0 true]
-    let e2 := run (dropAggregate e1 0) [.add 0 "a" "n0" false, .cmd 0 ⟨"new", .add 2⟩ false]
+    let e2 := run (dropAggregatePinned e1 0) [.add 0 "a" "n0" false, .cmd 0 ⟨"new", .add 2⟩ false]
     ((commandHistory e2 0 true {}).2.commands.map (·.actor)) = ["old"] ∧
     ((commandHistory e2 1 false {}).2.commands.map (·.actor)) = ["new"] := by
+  decide
+
+/-- `DropSafe` is needed: a *second* store object with a history cache is out of reach of
+`drop_aggregate` (modelled quirk; krill has one long-lived store object per namespace). -/
+theorem history_needs_dropSafe :
+    let ops : List (HOp (Reg.regAgg 1)) :=
+      [.op (.add 0 "a" "n0" false), .op (.cmd 0 ⟨"old", .add 1⟩ false), .op (.hist 2 true),
+       .drop 0, .op (.add 0 "a" "n0" false), .op (.cmd 0 ⟨"new", .add 2⟩ false)]
+    ((commandHistory (runH (Ent.empty : Ent (Reg.regAgg 1)) ops) 2 true {}).2.commands.map (·.actor))
+      = ["old"] := by
   decide
 
 end Audit
